@@ -101,14 +101,26 @@ func For[V any](
 	return func(c *co[V], k cont[V]) {
 		var loop func(skipPost bool)
 		loop = func(skipPost bool) {
-			if post != nil && !skipPost {
-				post()
-			}
-			if cond == nil || cond() {
+			// Trampoline: while the body completes synchronously (no yield in between),
+			// iterate here instead of re-entering loop from the body's continuation,
+			// so the stack depth doesn't grow with the number of non-yielding iterations.
+			for {
+				if post != nil && !skipPost {
+					post()
+				}
+				if cond != nil && !cond() {
+					k(kNormal, zero[V]())
+					return
+				}
+				running, again := true, false
 				body(c, func(t contType, v V) {
 					switch t {
 					case kNormal, kContinue:
-						loop(false)
+						if running {
+							again = true // completed synchronously, continue in the for loop below
+						} else {
+							loop(false) // resumed after a yield, start a new trampoline
+						}
 					case kBreak:
 						k(kNormal, zero[V]())
 					case kReturn:
@@ -117,8 +129,11 @@ func For[V any](
 						panic("unreachable")
 					}
 				})
-			} else {
-				k(kNormal, zero[V]())
+				running = false
+				if !again {
+					return
+				}
+				skipPost = false
 			}
 		}
 		loop(true)
